@@ -379,6 +379,11 @@ func (a *AliveDialerSet) NotifyLatencyChange(dialer *Dialer, alive bool) {
 	} else if alive && minPolicy && a.minLatency.dialer == nil {
 		// Use first dialer if no dialer has alive state (usually happen at the very beginning).
 		a.minLatency.dialer = dialer
+		// Not alive -> alive: report the transition as the latency path does, otherwise a group
+		// revived by a node without a latency sample keeps its connectivity bit cleared.
+		a.mu.Unlock()
+		a.aliveChangeCallback(true)
+		a.mu.Lock()
 		if a.log.IsLevelEnabled(logrus.InfoLevel) {
 			a.log.WithFields(logrus.Fields{
 				"group":   a.dialerGroupName,
